@@ -383,11 +383,8 @@ def Num.isPrim : Num → Bool
 def swapO : Option Ordering → Option Ordering := Option.map Ordering.swap
 
 /-- `num_partial_cmp` over the table of `impl NumOrd<Rhs> for Lhs` of the three `num_order.rs`
-    files; outer `none` = no such impl. -/
-def numPartialCmp (o : Oracle) (x y : Num) : Option (Option Ordering) :=
-  if x.isPrim && y.isPrim then none       -- primitive × primitive is num-order's own
-  else
-  match x.kind, y.kind with
+    files, on operand kinds; outer `none` = no such impl. -/
+def numPartialCmpK (o : Oracle) : Kind → Kind → Option (Option Ordering)
   -- integer crate
   | .nat a, .nat b => some (some (compare a b))
   | .nat a, .int b => some (some (ubigCmpIbig a b))
@@ -418,6 +415,10 @@ def numPartialCmp (o : Oracle) (x y : Num) : Option (Option Ordering) :=
   | .pf t dec, .rat _ n d => some (swapO (ratNumOrdFloat t n d dec))
   | .pf _ _, .pf _ _ => none
 
+/-- `num_partial_cmp` on protocol numbers (primitive × primitive is num-order's own code) -/
+def numPartialCmp (o : Oracle) (x y : Num) : Option (Option Ordering) :=
+  if x.isPrim && y.isPrim then none else numPartialCmpK o x.kind y.kind
+
 /-- `num_eq`: the trait default (`num_partial_cmp == Some(Equal)`) except the RBig/Relaxed pair,
     which overrides it with `repr_eq::<false>` -/
 def numEq (o : Oracle) (x y : Num) : Option Bool :=
@@ -426,12 +427,9 @@ def numEq (o : Oracle) (x y : Num) : Option Bool :=
       if r1 != r2 then some (ratReprEq false n1 d1 n2 d2) else none
   | _, _ => (numPartialCmp o x y).map fun r => r == some .eq
 
-/-- `abs_cmp` over the table of `impl AbsOrd<Rhs> for Lhs` (integer/float/rational `cmp.rs`);
-    primitives only against the same type (base/src/sign.rs, handled by the driver). -/
-def absCmp (o : Oracle) (x y : Num) : Option Ordering :=
-  if x.isPrim || y.isPrim then none
-  else
-  match x.kind, y.kind with
+/-- `abs_cmp` over the table of `impl AbsOrd<Rhs> for Lhs` (integer/float/rational `cmp.rs`) on
+    operand kinds -/
+def absCmpK (o : Oracle) : Kind → Kind → Option Ordering
   | .nat a, .nat b => some (compare a b)
   | .nat a, .int b => some (compare a b.natAbs)
   | .int a, .nat b => some (compare a.natAbs b)
@@ -450,6 +448,11 @@ def absCmp (o : Oracle) (x y : Num) : Option Ordering :=
   | .rat _ n d, .flt B s e _ => some (ratReprCmpFbig o true n d B s e)
   | .flt B s e _, .rat _ n d => some (ratReprCmpFbig o true n d B s e).swap
   | _, _ => none
+
+/-- `abs_cmp` on protocol numbers; primitives only against the same type (base/src/sign.rs,
+    handled by the driver with `primIntAbsCmp`). -/
+def absCmp (o : Oracle) (x y : Num) : Option Ordering :=
+  if x.isPrim || y.isPrim then none else absCmpK o x.kind y.kind
 
 /-- core `Ord`/`PartialOrd` between two values of one type -/
 def ordCmp (o : Oracle) (x y : Num) : Option Ordering :=
